@@ -57,7 +57,7 @@ pub enum Event {
     NoVerify { i: usize, t: usize },
     Report { i: usize, t: usize },
     /// call on `i`, then (if it returned) a user panic; `i` and `also` are dropped while unwinding
-    UnwindCall { i: usize, t: usize, mid: u8, a: u8, also: Vec<usize>, wrap: u8 },
+    UnwindCall { i: usize, t: usize, mid: u8, a: u8, also: Vec<usize>, wrap: u8, fresh: u8 },
     /// by-value provided method U2::consume
     Consume { i: usize, t: usize, a: u8 },
 }
@@ -196,6 +196,7 @@ pub fn parse_events(lines: &[Vec<&str>]) -> Result<Vec<Event>, String> {
                 i, t, mid: kv_num(toks, "m") as u8, a: kv_num(toks, "a") as u8,
                 also: kv(toks, "also").unwrap_or("").split(',').filter(|x| !x.is_empty()).filter_map(|x| x.parse().ok()).collect(),
                 wrap: kv_num(toks, "wrap") as u8,
+                fresh: kv_num(toks, "fresh") as u8,
             },
             Some("consume") => Event::Consume { i, t, a: kv_num(toks, "a") as u8 },
             Some("end") => break,
